@@ -543,7 +543,10 @@ class CSemantics:
 
     def check_condition(self, condition):
         condition = self.pointer(condition)
-        if not condition.typ.is_integer:
+        if not condition.typ.is_scalar:
+            # A scalar (integer, floating point or pointer) is compared with
+            # zero as it is: converting it to int first would turn 0.5, or a
+            # pointer with 32 zero low bits, into false.
             condition = self.coerce(condition, self.get_type(["int"]))
         return condition
 
@@ -744,8 +747,7 @@ class CSemantics:
 
     def on_ternop(self, lhs, op, mid, rhs, location):
         """Handle ternary operator 'a ? b : c'"""
-        lhs = self.pointer(lhs)
-        lhs = self.coerce(lhs, self.int_type)
+        lhs = self.check_condition(lhs)
         # TODO: For now, we use the common type of b and c as the result
         # But is this correct?
         mid = self.pointer(mid)
